@@ -187,8 +187,15 @@ func (s *scope) callLenFacts(pr *proof, a Lin, call *ssa.Call, idx int) {
 		// len(Bytes()) == Len() of the same buffer state
 		s.bufLenRel(pr, a, call)
 	case "(*bytes.Buffer).Next":
+		// len(Next(n)) = min(n, Len())
 		if l := s.lin(cm.Args[1], pr); true {
-			pr.add(le(a, l))
+			pr.add(le(a, l), geC(a, 0))
+			if bl, ok := s.bufLenBefore(pr, call); ok {
+				pr.addSplit(fmt.Sprintf("next:%p", call), [][]Cons{
+					append(eq(a, l), ge(bl, l)),
+					append(eq(a, bl), lt(bl, l)),
+				})
+			}
 		}
 	default:
 		if sc := cm.StaticCallee(); sc != nil && p.inModule(sc) {
@@ -308,9 +315,19 @@ func (b *Bounds) paramLenContract(s *scope, pr *proof, a Lin, q *ssa.Parameter) 
 // in between: a = earlier + appended.  Any other call in between ends the
 // search (it could change the buffer through an alias).
 func (s *scope) bufLenRel(pr *proof, a Lin, call *ssa.Call) {
+	if l, ok := s.bufLenBefore(pr, call); ok {
+		pr.add(eq(a, l)...)
+	}
+}
+
+// bufLenBefore expresses the length of call's receiver (a bytes.Buffer) just
+// before call through the closest earlier observation (Len() or len(Bytes()))
+// reached by walking backwards through the block and its chain of unique
+// predecessors, across appends only.
+func (s *scope) bufLenBefore(pr *proof, call *ssa.Call) (Lin, bool) {
 	recv, _, _ := recvOf(call)
 	if recv == nil {
-		return
+		return Lin{}, false
 	}
 	key := objKey(recv)
 	fk, hasFK := FieldKey{}, false
@@ -325,48 +342,55 @@ func (s *scope) bufLenRel(pr *proof, a Lin, call *ssa.Call) {
 		}
 	}
 	delta := linConst(0)
-	for i := pos - 1; i >= 0; i-- {
-		switch x := blk.Instrs[i].(type) {
-		case *ssa.Store:
-			if k, ok := fieldAddrKey(x.Addr); ok && hasFK && k == fk {
-				return // the field that holds the buffer is reassigned
-			}
-		case *ssa.Call:
-			if _, isB := x.Common().Value.(*ssa.Builtin); isB {
-				continue
-			}
-			r, m, args := recvOf(x)
-			if r == nil || objKey(r) != key || !isNamedType(r.Type(), "bytes", "Buffer") {
-				id := s.b.p.CalleeID(x.Common())
-				if pureStd[id] {
+	for hops := 0; hops < 6; hops++ {
+		for i := pos - 1; i >= 0; i-- {
+			switch x := blk.Instrs[i].(type) {
+			case *ssa.Store:
+				if k, ok := fieldAddrKey(x.Addr); ok && hasFK && k == fk {
+					return Lin{}, false // the field that holds the buffer is reassigned
+				}
+			case *ssa.Call:
+				if _, isB := x.Common().Value.(*ssa.Builtin); isB {
 					continue
 				}
-				return
-			}
-			switch m {
-			case "Len":
-				pr.add(eq(a, s.lin(x, pr).Add(delta))...)
-				return
-			case "Bytes":
-				if l, ok := s.lenLin(x, pr); ok {
-					pr.add(eq(a, l.Add(delta))...)
+				r, m, args := recvOf(x)
+				if r == nil || objKey(r) != key || !isNamedType(r.Type(), "bytes", "Buffer") {
+					id := s.b.p.CalleeID(x.Common())
+					if pureStd[id] {
+						continue
+					}
+					return Lin{}, false
 				}
-				return
-			case "Write", "WriteString":
-				l, ok := s.lenLin(args[0], pr)
-				if !ok {
-					return
+				switch m {
+				case "Len":
+					return s.lin(x, pr).Add(delta), true
+				case "Bytes":
+					if l, ok := s.lenLin(x, pr); ok {
+						return l.Add(delta), true
+					}
+					return Lin{}, false
+				case "Write", "WriteString":
+					l, ok := s.lenLin(args[0], pr)
+					if !ok {
+						return Lin{}, false
+					}
+					delta = delta.Add(l)
+				case "WriteByte":
+					delta = delta.Add(linConst(1))
+				default:
+					return Lin{}, false
 				}
-				delta = delta.Add(l)
-			case "WriteByte":
-				delta = delta.Add(linConst(1))
-			default:
-				return
+			case ssa.CallInstruction:
+				return Lin{}, false // go / defer
 			}
-		case ssa.CallInstruction:
-			return // go / defer
 		}
+		if len(blk.Preds) != 1 {
+			return Lin{}, false
+		}
+		blk = blk.Preds[0]
+		pos = len(blk.Instrs)
 	}
+	return Lin{}, false
 }
 
 // pureStd: standard-library functions that cannot reach a caller's bytes.Buffer.
